@@ -22,7 +22,7 @@ TIMEOUT = 3000
 RULE = ("port trees: 1..24 names per table over {a b c} + digits (lengths 1..3, anagrams and shared prefixes "
         "frequent), leaves with/without ':types' (also two leaves with the same name and different types), "
         "'#N' enumerations in about a third of the tables (such tables take the linear scan, the others the "
-        "perfect hash when the library finds one), sub-trees 'name/' and 'name#N/' nested up to 3 levels, "
+        "perfect hash when the library finds one), sub-trees 'name/' and 'name#N/' nested up to 4 levels, "
         "default handler on about a quarter of the tables, an occasional literal multi-component name (a/b); "
         "addresses derived from a randomly chosen port path: exact, one character appended / removed / changed, "
         "index N-1 / N / N+1 / leading zeros, '/' dropped or doubled, leading '/' dropped, plus random short "
@@ -167,7 +167,7 @@ def parse_run(s, withloc):
                 tid, i = head.split(":")
                 evs.append((int(tid), int(i), int(r[0]), int(r[1]), r[2], int(r[3]), r[4]))
     d = dict(kv.split("=") for kv in f[1:])
-    return evs, dfl, int(d["m"]), d.get("loc")
+    return evs, dfl, int(d["m"]), d.get("loc"), int(d["obj"])
 
 def spec_check(case, impl):
     f = case.split(" ")
@@ -177,8 +177,8 @@ def spec_check(case, impl):
         t = parse_tree(f[1])
         addr, ty = unhx(f[2]), unhx(f[3])
         Ls, Ns, Rs = impl.split(" | ")
-        Lev, Ldf, Lm, Lloc = parse_run(Ls[2:], True)
-        Nev, Ndf, Nm, _ = parse_run(Ns[2:], False)
+        Lev, Ldf, Lm, Lloc, Lobj = parse_run(Ls[2:], True)
+        Nev, Ndf, Nm, _, Nobj = parse_run(Ns[2:], False)
     except Exception as e:
         return "crash: unparsable output %s (%s)" % (impl[:120], e)
     exp, nomatch = expected(t, addr, ty)
@@ -214,6 +214,10 @@ def spec_check(case, impl):
     leaves = sum(1 for (a, b, _, _) in gotL if names[a].ports[b][1] is None)
     if Lm != leaves + len(Ldf):
         return "matches: d.matches = %d after the root dispatch, %d leaf callbacks (+%d default handler) were invoked" % (Lm, leaves, len(Ldf))
+    if Lobj != 1 or Nobj != 1:
+        return "obj-restored: d.obj is %d / %d after the root dispatch (with / without location buffer), it was 1" % (Lobj, Nobj)
+    if Nm != 0:
+        return "matches: d.matches = %d after a root dispatch without location buffer" % Nm
     if Lloc != hx(b"/"):
         return "loc-restored: loc is '%s' after the root dispatch" % Lloc
     for tid, _, _, _ in Ldf + Ndf:
@@ -230,6 +234,14 @@ def spec_check(case, impl):
                 i = name.find(b":")
                 key = name[:i] if i > 0 else name
                 hs.append(len(key) + sum(assoc.get(key[p], 0) for p in pos if p < len(key)))
+            # the hypotheses of the tree theorems (tree_ok): a hashed table has literal
+            # single-component names and non-negative assoc values
+            if any(v < 0 for v in assoc.values()):
+                return "hypothesis: table %d has a negative assoc value" % tb.tid
+            for name, _ in tb.ports:
+                ast = parse_name(name)
+                if len(ast[0]) != 1 or ast[0][0][0] != "L" or b"/" in ast[0][0][1]:
+                    return "hypothesis: table %d is hashed although '%s' is not a literal single-component name" % (tb.tid, name.decode("latin1"))
             if len(set(hs)) != len(hs):
                 return "tables-invalid: table %d is looked up by hash although two of its names hash alike (%s)" % (tb.tid, hs)
     if not Rs.endswith("T=ok"):
@@ -399,7 +411,7 @@ def gen(rng, tier, dist):
     per = 14 if tier == "quick" else 24
     trees = []
     for _ in range(ntrees):
-        maxdepth = rng.choice([1, 1, 2, 2, 3])
+        maxdepth = rng.choice([1, 1, 2, 2, 3, 3, 4])
         trees.append(gen_tree(rng, 0, [0], maxdepth))
     # the findings' witnesses are always there
     for names in ([b"ab", b"ba", b"aa", b"bb"], [b"c", b"a/b"], [b"a", b"bcd"], [b"a", b"a/"]):
